@@ -1120,6 +1120,116 @@ mod v_iface_neighbor {
         }
     }
 
+    // ------------------------------------------------------------------ 5b. the real Interface::socket_egress
+    // A device whose tokens carry no pointer: frames are captured in a static.  (A token holding `&mut TxState` that
+    // travels through the `Option` returned by `Device::transmit` loses its points-to precision in CBMC.)
+    #[allow(unsafe_code)]
+    mod gdev {
+        use super::*;
+        pub(super) static mut G: TxState<CAP> = TxState { frames: 0, len0: 0, len1: 0, buf0: [0; CAP], buf1: [0; CAP] };
+        pub(super) struct GTx;
+        impl TxToken for GTx {
+            fn consume<R, F: FnOnce(&mut [u8]) -> R>(self, len: usize, f: F) -> R {
+                // single-threaded harness: the only reference to G alive
+                let st: &mut TxState<CAP> = unsafe { &mut *core::ptr::addr_of_mut!(G) };
+                let r;
+                if st.frames == 0 {
+                    st.len0 = len;
+                    r = f(&mut st.buf0[..len]);
+                } else {
+                    st.len1 = len;
+                    r = f(&mut st.buf1[..len]);
+                }
+                st.frames += 1;
+                r
+            }
+        }
+        pub(super) fn captured() -> &'static TxState<CAP> {
+            unsafe { &*core::ptr::addr_of!(G) }
+        }
+        pub(super) struct GDev {
+            pub(super) tx_ok: bool,
+        }
+        impl Device for GDev {
+            type RxToken<'a> = crate::verif_dev::NoRx;
+            type TxToken<'a> = GTx;
+            fn capabilities(&self) -> DeviceCapabilities {
+                let mut c = DeviceCapabilities::default();
+                c.medium = Medium::Ethernet;
+                c.max_transmission_unit = 1514;
+                c.checksum = ChecksumCapabilities::ignored();
+                c
+            }
+            fn receive(&mut self, _t: Instant) -> Option<(crate::verif_dev::NoRx, GTx)> {
+                None
+            }
+            fn transmit(&mut self, _t: Instant) -> Option<GTx> {
+                if self.tx_ok {
+                    Some(GTx)
+                } else {
+                    None
+                }
+            }
+        }
+    }
+
+    // @harness props=C16 cfg=KI4 tier=q to=900 mem=8 unwind=8 opts=nomem covers=3 funcs=Interface::socket_egress;udp::Socket::dispatch;InterfaceInner::dispatch_ip;InterfaceInner::lookup_hardware_addr;InterfaceInner::has_neighbor;socket_meta::Meta::egress_permitted;socket_meta::Meta::neighbor_missing bounds=the_real_Interface::socket_egress_on_a_SocketSet_with_one_UDP_socket;_one_queued_4-byte_datagram_to_any_on-link_host_192.168.1.x_without_a_live_cache_entry;_neighbor_cache_holding_2_entries_(fixed_keys),_any_silent_until;_device_with_or_without_a_free_transmit_buffer
+    #[kani::proof]
+    pub(crate) fn socket_egress_neighbor_unknown() {
+        #[cfg(all(feature = "proto-ipv4", feature = "socket-udp"))]
+        {
+            use crate::socket::udp as sudp;
+            let mut dev = gdev::GDev { tx_ok: true };
+            let now = any_instant(0, T_MAX);
+            let mut iface = Interface::new(Config::new(HardwareAddress::Ethernet(OWN_MAC)), &mut dev, now);
+            push_own_addrs(&mut iface, false);
+            let (c, m) = cache_with(2, now);
+            iface.inner.neighbor_cache = c;
+            let x: u8 = kani::any();
+            kani::assume(x != 255);
+            let dst = IpAddress::Ipv4(Ipv4Address::new(192, 168, 1, x));
+            kani::assume(!m_lookup(&m, &dst, now).found());
+            let mut rx_meta = [sudp::PacketMetadata::EMPTY; 1];
+            let mut rx_pay = [0u8; 8];
+            let mut tx_meta = [sudp::PacketMetadata::EMPTY; 1];
+            let mut tx_pay = [0u8; 8];
+            let mut sock = sudp::Socket::new(
+                sudp::PacketBuffer::new(&mut rx_meta[..], &mut rx_pay[..]),
+                sudp::PacketBuffer::new(&mut tx_meta[..], &mut tx_pay[..]),
+            );
+            let lport: u16 = kani::any();
+            let rport: u16 = kani::any();
+            kani::assume(lport != 0 && rport != 0);
+            sock.bind(lport).unwrap();
+            let data: [u8; 4] = kani::any();
+            sock.send_slice(&data, (dst, rport)).unwrap();
+            let mut storage: [SocketStorage; 1] = [SocketStorage::EMPTY];
+            let mut sockets = SocketSet::new(&mut storage[..]);
+            let h = sockets.add(sock);
+            dev.tx_ok = kani::any();
+            let r1 = iface.socket_egress(&mut dev, &mut sockets);
+            let cap = gdev::captured();
+            assert!(sockets.get::<sudp::Socket>(h).send_queue() == 4, "prop:c16_datagram_stays_queued_while_neighbor_unknown");
+            assert!(r1 == PollResult::None, "prop:c16_unresolved_egress_reports_no_progress");
+            let arp_sent = cap.frames == 1;
+            assert!(cap.frames <= 1, "prop:c16_at_most_one_arp_request");
+            assert!(arp_sent == (dev.tx_ok && now >= m.silent), "prop:c16_request_only_when_not_silent");
+            if arp_sent {
+                check_request_frame(&cap.buf0, cap.len0, &dst);
+            }
+            let item = sockets.items_mut().next().unwrap();
+            if dev.tx_ok {
+                assert!(item.meta.poll_at(PollAt::Now, |_| false, now) == PollAt::Time(plus(now, SEC)), "prop:c16_silenced_socket_polled_at_end_of_silence");
+                assert!(item.meta.poll_at(PollAt::Now, |a| a == dst, now) == PollAt::Now, "prop:c16_socket_unsilenced_when_neighbor_found");
+            } else {
+                assert!(item.meta.poll_at(PollAt::Now, |_| false, now) == PollAt::Now, "prop:c16_exhausted_device_does_not_silence_socket");
+            }
+            kani::cover!(arp_sent, "ARP request sent");
+            kani::cover!(!arp_sent && dev.tx_ok, "rate limited: no request, datagram kept");
+            kani::cover!(!dev.tx_ok, "device exhausted");
+        }
+    }
+
     // @harness props=C16 kind=mustfail cfg=KI4 tier=q to=900 mem=8 unwind=8 opts=nomem
     #[kani::proof]
     pub(crate) fn iface_neighbor_must_fail() {
